@@ -7,6 +7,7 @@ pass-phrase encoding left), (2) poisoned private stack scanned after the call
 no pass-phrase, (4) the entropy buffer crypt_gensalt drew into is zero after
 the call; digest/HMAC/KDF primitives leave zero contexts and clean stacks
 (harness/vprim.c)."""
+import os
 import json
 import subprocess
 
@@ -88,10 +89,11 @@ def judge_object(acc, flavour, req, r, ln, setup):
 
 def do_object(args):
     """(1): asan flavour, shared objects, histories"""
-    reqs, hseed = args
+    reqs, hseed = args[:2]
+    exe = args[2] if len(args) > 2 else None
     acc = common.Acc()
-    fl = "asan"
-    w = rt.vw(fl)
+    fl = "asan" if not exe else "own-bzero"
+    w = pool.Worker(exe) if exe else rt.vw(fl)
     rng = rt.rng_for(hseed, "obj")
     setup = ["scan 1", rt.obj_line(0, align=rng.randrange(16), fill="r", seed=5),
              rt.obj_line(1, align=rng.randrange(16), fill="f"), "raobj 2 -1 0"]
@@ -117,8 +119,10 @@ def do_object(args):
             acc.inconc("timeout")
             continue
         judge_object(acc, fl, req, r, ln, setup)
-        acc.cls(("object", req[1], req[0], "ok" if rt.hash_of(r) else "fail"))
-        acc.count("obj/" + req[1])
+        acc.cls(("object" if not exe else "object-own-bzero", req[1], req[0], "ok" if rt.hash_of(r) else "fail"))
+        acc.count(("obj/" if not exe else "objown/") + req[1])
+    if exe:
+        w.stop()
     return acc
 
 
@@ -276,6 +280,21 @@ def run(tier):
         run_.merge(acc)
     for acc in pool.pmap(do_entropy, [(run_.seed,)]):
         run_.merge(acc)
+    # the same object monitor on a build that has to use the library's own explicit_bzero (util-xbzero.c):
+    # configure picks it when the C library offers none of memset_explicit/memset_s/explicit_bzero/explicit_memset
+    from . import C19
+    import shutil
+    none = {"HAVE_EXPLICIT_BZERO": None, "HAVE_MEMSET_S": None, "HAVE_EXPLICIT_MEMSET": None, "HAVE_MEMSET_EXPLICIT": None}
+    name, en, exe, err, _ = C19.build_config(("c09-own-bzero", list(gen.METHODS), none, "-O2 -g0"))
+    if exe is None:
+        run_.acc.inconc("build with the library's own explicit_bzero failed: " + err[-300:])
+    else:
+        try:
+            work_c = [(make_requests(run_.seed, tier, "c%d" % i), run_.seed * 1000 + 500 + i, exe) for i in range(nh)]
+            for acc in pool.pmap(do_object, work_c):
+                run_.merge(acc)
+        finally:
+            shutil.rmtree(os.path.dirname(exe), ignore_errors=True)
     run_prim(run_, tier)
     a = run_.acc
     cov = {
@@ -296,7 +315,9 @@ def run(tier):
         "primitive_context_checks": int(a.n.get("prim_ctx_checks", 0)),
         "primitive_stack_scans": int(a.n.get("prim_stack_scans", 0)),
         "primitive_ops_with_stack_residue_informational": sorted(a.sets.get("prim_residue", ())),
-        "flavours": ["asan (object monitor)", "o0 -z now (stack, ledger, entropy, primitives)"],
+        "object_checks_own_explicit_bzero_build": int(sum(v for k, v in a.n.items() if k.startswith("objown/"))),
+        "flavours": ["asan (object monitor)", "o0 -z now (stack, ledger, entropy, primitives)",
+                     "-O2 build without libc explicit_bzero: lib/util-xbzero.c in use (object monitor)"],
     }
     return run_.finish(cov, assumptions=[
         "stack claim only for the -O0 build (the property restricts it so); registers and kernel copies are out of reach",
